@@ -39,12 +39,9 @@ func runC12(c *Ctx) {
 		}
 		allInstrs(fn, func(in ssa.Instruction) {
 			if iff, ok := in.(*ssa.If); ok {
-				if bo, ok := iff.Cond.(*ssa.BinOp); ok && bo.Op == token.LSS {
-					if k, isC := constInt(bo.Y); isC && k >= 100 {
-						if _, isPhi := bo.X.(*ssa.Phi); isPhi {
-							driver = fn
-						}
-					}
+				// `for i := 0; i < K; i++` and the rotated form of `for range K` alike (robust_A5.go)
+				if _, isBound := a5ConstBoundTest(iff.Cond, 100); isBound {
+					driver = fn
 				}
 			}
 		})
@@ -83,6 +80,8 @@ func runC12(c *Ctx) {
 		rs = append(rs, f)
 	}
 	sort.Slice(rs, func(i, j int) bool { return fnName(rs[i]) < fnName(rs[j]) })
+	recG := a5NewRecGraph(reach)
+	passEdges := map[*ssa.Function]map[*ssa.Function]bool{}
 	for _, fn := range rs {
 		// loops
 		for _, b := range fn.Blocks {
@@ -99,28 +98,40 @@ func runC12(c *Ctx) {
 				c.OK(name, p.Pos(lastPos(h)), kind)
 			}
 			if fn == driver {
-				// after the loop: error return
-				okErr := false
-				for _, r := range returnsOf(fn) {
-					res := resultsOf(r)
-					last := res[len(res)-1]
-					if u, ok := strip(last).(*ssa.UnOp); ok {
-						if _, isG := u.X.(*ssa.Global); isG && !body[r.Block()] && h.Dominates(r.Block()) {
-							okErr = true
-						}
-					}
-				}
+				// after the loop: error return (on the exit of the bound test; the loop may be rotated)
+				okErr := a5ErrorAfterBoundedLoop(fn, h, body)
 				c.Check(okErr, "exhausting the expansion bound is an error", p.Pos(fn.Pos()), "returns the too-many-expansions error after the loop", "when the bound is exhausted (reference cycle) no error is reported")
 			}
 		}
-		// recursion
-		for _, ci := range calls(fn, func(ci ssa.CallInstruction) bool { return staticCalleeFn(ci) == rootFn(fn) }) {
+		// recursion: every call that closes a call cycle inside the reachable set – direct self-recursion, or mutual
+		// recursion through an extracted helper (expandValue → expandSlice → expandValue). A call that hands the
+		// caller's own parameter on is accepted when every cycle it lies on decreases elsewhere (checked below).
+		for _, ci := range recG.recursiveCalls(fn, reach) {
 			name := fmt.Sprintf("recursion in %s #%d", fnName(rootFn(fn)), recOrdinal(c, fnName(rootFn(fn))))
-			kind := classifyRecursion(rootFn(fn), ci)
-			if kind == "" {
-				c.Undecided(name, p.Pos(ci.Pos()), "recursive call is neither structural (argument is a component of a type-switched/ranged value) nor on a strict suffix under a containment guard")
-			} else {
+			kind, pass := a5ClassifyRecEdge(a5Index(p, cpk), ci)
+			switch {
+			case kind != "":
 				c.OK(name, p.Pos(ci.Pos()), kind)
+			case pass:
+				from, to := rootFn(fn), staticCalleeFn(ci)
+				if passEdges[from] == nil {
+					passEdges[from] = map[*ssa.Function]bool{}
+				}
+				passEdges[from][to] = true
+				c.OK(name, p.Pos(ci.Pos()), "the parameter is handed on unchanged to a function of the cycle; the cycle decreases at another call")
+			default:
+				c.Undecided(name, p.Pos(ci.Pos()), "recursive call is neither structural (argument is a component of a type-switched/ranged value) nor on a strict suffix under a containment guard")
+			}
+		}
+	}
+	// no cycle consists of hand-on calls only
+	{
+		pg := &a5RecGraph{succ: passEdges}
+		for _, from := range rs {
+			for to := range passEdges[from] {
+				if pg.reaches(to, from) {
+					c.Undecided("recursion cycle through "+fnName(from), p.Pos(from.Pos()), "a call cycle hands its argument on unchanged at every call: nothing decreases")
+				}
 			}
 		}
 	}
@@ -226,31 +237,59 @@ func runC12(c *Ctx) {
 	}
 	var unesc *ssa.Function
 	if resolve != nil {
-		var upd *ssa.MapUpdate
-		allInstrs(resolve, func(in ssa.Instruction) {
-			if mu, ok := in.(*ssa.MapUpdate); ok {
-				if _, isMk := strip(mu.Map).(*ssa.MakeMap); isMk {
-					upd = mu
-				}
+		// the expansion pipeline is located by its effect – the map entry that receives the un-escaped result of the
+		// bounded driver – in Resolve or in a helper of the package Resolve is split into; its position in Resolve is
+		// the call that leads there (robust_A5.go)
+		within := a5ReachableInPkg(resolve, 3)
+		isDriverCall := func(ci ssa.CallInstruction) bool { return staticCalleeFn(ci) == driver }
+		okPipe := true
+		nDriver := 0
+		for _, fn := range funcs {
+			if !within[rootFn(fn)] {
+				continue
 			}
-		})
-		okPipe := false
-		if upd != nil {
-			if call, ok := strip(upd.Value).(*ssa.Call); ok && staticCalleeFn(call) != nil && recvNamedOfFn(staticCalleeFn(call)) == nil {
-				unesc = staticCalleeFn(call)
-				if ex, ok := strip(call.Call.Args[0]).(*ssa.Extract); ok {
-					if dc, ok := ex.Tuple.(*ssa.Call); ok && staticCalleeFn(dc) == driver {
-						okPipe = errGuardOn(upd.Block(), dc, true)
+			for _, dci := range calls(fn, isDriverCall) {
+				dc, isCall := dci.(*ssa.Call)
+				if !isCall {
+					continue
+				}
+				nDriver++
+				okOne := false
+				allInstrs(fn, func(in ssa.Instruction) {
+					upd, ok := in.(*ssa.MapUpdate)
+					if !ok {
+						return
 					}
+					if _, isMk := strip(upd.Map).(*ssa.MakeMap); !isMk {
+						return
+					}
+					if call, ok := strip(upd.Value).(*ssa.Call); ok && staticCalleeFn(call) != nil && recvNamedOfFn(staticCalleeFn(call)) == nil {
+						if ex, ok := strip(call.Call.Args[0]).(*ssa.Extract); ok && ex.Tuple == ssa.Value(dc) && errGuardOn(upd.Block(), dc, true) {
+							unesc = staticCalleeFn(call)
+							okOne = true
+						}
+					}
+				})
+				if !okOne {
+					okPipe = false
 				}
 			}
 		}
+		okPipe = okPipe && nDriver > 0
 		c.Check(okPipe, "each resolved value is un-escaped after recursive expansion", p.Pos(resolve.Pos()), "cfg[k] = escapeDollarSigns(expandValueRecursively(raw)) on the success side", "values are stored without the expansion → un-escape pipeline (or un-escaped before expansion)")
 		// converters after
-		conv := calls(resolve, func(ci ssa.CallInstruction) bool {
+		exp := a5ReachingSites(p, resolve, isDriverCall, 3)
+		conv := a5ReachingSites(p, resolve, func(ci ssa.CallInstruction) bool {
 			return ci.Common().IsInvoke() && ci.Common().Method.Name() == "Convert"
-		})
-		okConv := upd != nil && len(conv) == 1 && canReach(upd, conv[0], nil) && !canReach(conv[0], upd, nil)
+		}, 3)
+		okConv := len(exp) > 0 && len(conv) > 0
+		for _, e := range exp {
+			for _, cv := range conv {
+				if e == cv || !canReach(e, cv, nil) || canReach(cv, e, nil) {
+					okConv = false
+				}
+			}
+		}
 		c.Check(okConv, "converters run after expansion", p.Pos(resolve.Pos()), "expansion loop ≺ converters", "converters see unexpanded values")
 	} else {
 		c.Anchor("Resolver.Resolve")
@@ -285,12 +324,21 @@ func runC12(c *Ctx) {
 	if resolve != nil {
 		confT := p.LookupType(relPkg(pkgConfmap), "Conf")
 		n := 0
-		for _, ci := range calls(resolve, func(ci ssa.CallInstruction) bool {
+		// the merge calls made on behalf of Resolve: in Resolve itself or in the helpers of the package it is split
+		// into; a merge whose receiver and argument are bare parameters of a helper (`mergeConf(dest, src)`) is
+		// judged at the helper's call sites, with the arguments given there (robust_A5.go)
+		within := a5ReachableInPkg(resolve, 3)
+		for _, site := range a5SitesThroughWrappers(a5Index(p, cpk), func(ci ssa.CallInstruction) bool {
 			cf := staticCalleeFn(ci)
-			return cf != nil && recvNamedOfFn(cf) == confT && strings.HasPrefix(strings.ToLower(cf.Name()), "merge")
-		}) {
+			return cf != nil && recvNamedOfFn(cf) == confT && strings.HasPrefix(strings.ToLower(cf.Name()), "merge") && len(ci.Common().Args) == 2 && within[rootFn(ci.Parent())]
+		}, func(ci ssa.CallInstruction) []ssa.Value { return ci.Common().Args[:2] }) {
+			if !within[rootFn(site.Fn)] {
+				continue
+			}
 			n++
-			recv, arg := ci.Common().Args[0], ci.Common().Args[1]
+			ci := site.Call
+			leaf := site.Leaf
+			recv, arg := site.Args[0], site.Args[1]
 			// accumulator: created before the loop (New()); argument: derived from the retrieved value inside the loop
 			_, recvIsNew := strip(recv).(*ssa.Call)
 			h, body := innermostLoop(ci.Block())
@@ -315,7 +363,7 @@ func runC12(c *Ctx) {
 					}
 				}
 			}
-			c.Check(recvIsNew && accOutside && argInside && okOrder, fmt.Sprintf("merge direction of %s", staticCalleeFn(ci).Name()), p.Pos(ci.Pos()), "accumulator.Merge(retrieved), sources ascending", fmt.Sprintf("accumulator is the pre-loop map=%v, argument is the freshly retrieved map=%v, sources in slice order=%v: an earlier source would override a later one", accOutside, argInside, okOrder))
+			c.Check(recvIsNew && accOutside && argInside && okOrder, fmt.Sprintf("merge direction of %s", staticCalleeFn(leaf).Name()), p.Pos(ci.Pos()), "accumulator.Merge(retrieved), sources ascending", fmt.Sprintf("accumulator is the pre-loop map=%v, argument is the freshly retrieved map=%v, sources in slice order=%v: an earlier source would override a later one", accOutside, argInside, okOrder))
 		}
 		if n < 2 {
 			c.Undecided("merge call sites in Resolve", "-", fmt.Sprintf("%d", n))
@@ -362,19 +410,15 @@ func runC12(c *Ctx) {
 		if fn.Parent() != nil || recvNamedOfFn(fn) != resT {
 			continue
 		}
-		if len(calls(fn, func(ci ssa.CallInstruction) bool {
-			return staticCalleeFn(ci) == fn || (staticCalleeFn(ci) != nil && staticCalleeFn(ci).Parent() == fn)
-		})) > 0 || len(callsTo(fn, funcObj(fn))) > 0 {
-			if len(fn.Params) == 2 {
-				if b, ok := fn.Params[1].Type().Underlying().(*types.Basic); ok && b.Kind() == types.String {
-					// recursion through itself or through a closure
-					selfRec := false
-					for _, g := range withAnon(fn) {
-						if len(callsTo(g, funcObj(fn))) > 0 {
-							selfRec = true
-						}
-					}
-					if selfRec {
+		// the URI search: the method (input string) of Resolver that recurses – through itself, through a closure or
+		// through a helper of the package (a call cycle, robust_A5.go)
+		if len(fn.Params) == 2 && fn.Signature.Results().Len() == 2 {
+			if b, ok := fn.Params[1].Type().Underlying().(*types.Basic); ok && b.Kind() == types.String {
+				if len(recG.recursiveCalls(fn, reach)) > 0 {
+					findURI = fn
+				}
+				for _, g := range fn.AnonFuncs {
+					if len(recG.recursiveCalls(g, reach)) > 0 {
 						findURI = fn
 					}
 				}
@@ -393,8 +437,19 @@ func runC12(c *Ctx) {
 	// (a) give-up returns
 	okGiveUp := true
 	where := ""
-	for _, g := range withAnon(findURI) {
+	// the search = the function, its closures and the helpers of the package it is split into
+	var search []*ssa.Function
+	searchSet := a5ReachableInPkg(findURI, 3)
+	for _, fn := range funcs {
+		if searchSet[rootFn(fn)] {
+			search = append(search, fn)
+		}
+	}
+	for _, g := range search {
 		for _, r := range returnsOf(g) {
+			if len(r.Results) == 0 {
+				continue
+			}
 			res := resultsOf(r)[0]
 			if s, ok := constString(res); !ok || s != "" {
 				continue
@@ -411,7 +466,7 @@ func runC12(c *Ctx) {
 				if op, x, y, ok := cmpOf(gd); ok && op == token.EQL {
 					if s, isS := constString(y); isS && s == "" {
 						for w := range backSlice(x) {
-							if call, ok := w.(*ssa.Call); ok && staticCalleeFn(call) == findURI {
+							if call, ok := w.(*ssa.Call); ok && staticCalleeFn(call) != nil && searchSet[rootFn(staticCalleeFn(call))] {
 								justified = true
 							}
 						}
@@ -427,7 +482,7 @@ func runC12(c *Ctx) {
 	c.Check(okGiveUp, "the URI search gives up only when the input is exhausted", p.Pos(findURI.Pos()), "every empty result is guarded by `no further }` or an empty recursive result", "the search returns empty at "+where+" without examining the rest of the input (e.g. as soon as a candidate is escaped): references after an escaped one are never expanded")
 	// (b) parity of the whole run
 	okParity := false
-	for _, g := range withAnon(findURI) {
+	for _, g := range search {
 		allInstrs(g, func(in ssa.Instruction) {
 			bo, ok := in.(*ssa.BinOp)
 			if !ok || bo.Op != token.REM {
@@ -436,8 +491,9 @@ func runC12(c *Ctx) {
 			if k, isC := constInt(bo.Y); !isC || k != 2 {
 				return
 			}
-			// the counted value is incremented inside a loop whose index descends
-			phi, ok := bo.X.(*ssa.Phi)
+			// the counted value is incremented inside a loop whose index descends; the count may be the result of a
+			// helper of the package that does nothing else (robust_A5.go)
+			phi, ok := a5ResultValue(bo.X).(*ssa.Phi)
 			if !ok {
 				return
 			}
